@@ -82,6 +82,25 @@ theorem C08.load_perm_balances {ds ds' : List Dir} (hf : orderFree ds = true) (h
   rw [ownBalance_den, ownBalance_den, familyBalance_den, familyBalance_den]
   exact ⟨sumDen_perm _ c hperm, sumDen_perm _ c hperm⟩
 
+/-- The internal precision counter ledger keeps for a commodity in an account's balance
+    (`amount_t::operator+=` takes the larger counter of the two operands, amount.cc 436-438;
+    zero amounts are skipped by `balance_t +=`) is the maximum over the account's nonzero
+    postings of that commodity — this is what an amount WITHOUT commodity is displayed with. -/
+theorem C08.balance_prec_is_max (es : List Entry) (a : String) (c : Comm) :
+    balPrec (ownBalance es a) c = maxPrec c (es.filter (fun e => e.account = a)) 0 ∧
+    balPrec (familyBalance es a) c = maxPrec c (es.filter (fun e => accountUnder e.account a)) 0 :=
+  ⟨ownBalance_prec es a c, familyBalance_prec es a c⟩
+
+/-- … hence independent of the order of the transactions: a commodity-less total such as
+    1.5 + 0.25 is displayed with two decimals whichever posting was seen first. -/
+theorem C08.load_perm_prec {ds ds' : List Dir} (hf : orderFree ds = true) (hp : ds'.Perm ds)
+    {s s' : State} (h : load ds = .ok s) (h' : load ds' = .ok s') (a : String) (c : Comm) :
+    balPrec (ownBalance s'.entries a) c = balPrec (ownBalance s.entries a) c ∧
+    balPrec (familyBalance s'.entries a) c = balPrec (familyBalance s.entries a) c := by
+  have hperm := C08.load_perm_entries hf hp h h'
+  rw [ownBalance_prec, ownBalance_prec, familyBalance_prec, familyBalance_prec]
+  exact ⟨maxPrec_perm c (hperm.filter _) 0, maxPrec_perm c (hperm.filter _) 0⟩
+
 /-- The full acceptance statement: a rearrangement of an accepted journal of the fragment is accepted. -/
 def C08.LoadPermAcceptedFull : Prop :=
   ∀ ds ds' : List Dir, orderFree ds = true → ds'.Perm ds → (load ds).isOk = true → (load ds').isOk = true
